@@ -318,3 +318,26 @@ HTTP_404_HEAD = b"HTTP/1.0 404 Not Found\r\nContent-Type: text/html\r\n\r\n"
 
 def collapse_crlf(meta):
     return re.sub(r"[\r\n]+", " ", meta)
+
+
+# ---------------------------------------------------------------------------- C04
+import stat
+
+
+def is_reg(statresult):
+    return stat.S_ISREG(statresult[0])
+
+
+def is_dir(statresult):
+    return stat.S_ISDIR(statresult[0])
+
+
+def mime_of(guess, default, mimetype, encoding, encodedmimetype):
+    """What populatefromfs must record for a (type, encoding) pair from the MIME tables."""
+    gtype = guess[0]
+    genc = guess[1]
+    if genc:
+        return mimetype == "application/octet-stream" and encoding == genc and encodedmimetype == gtype
+    if gtype:
+        return mimetype == gtype
+    return mimetype == default
